@@ -169,6 +169,11 @@ def raw_index(fn, qn):
                  (isinstance(recv, ast.Attribute) and _ARRAYISH.search(recv.attr))
         if not is_arr or (short, p) in RAW_INDEX_OK:
             continue
+        # the name no longer holds the caller's value once it has been re-bound from a call (u = self.parent(u) validates u)
+        if any(isinstance(a_, ast.Assign) and isinstance(a_.value, ast.Call) and a_.lineno < x.lineno
+               and any(isinstance(t_, ast.Name) and t_.id == p for t_ in a_.targets)
+               and not ast.unparse(a_.value.func).startswith(("np.", "numpy.", "util.safe_np_int_cast", "int", "list")) for a_ in ast.walk(fn)):
+            continue
         if not (lower_tested(p) or (p in alias and lower_tested(alias[p]))):
             out.append((x, "`%s` indexes a numpy array with the caller's `%s`, whose lower bound is never tested: a negative id wraps "
                         "around instead of being rejected" % (ast.unparse(x)[:40], alias.get(p, p))))
